@@ -142,7 +142,14 @@ class _Src:
                 self.emit(ind, f"_x = await g.ayield({s[1]})")
             self.recv(ind)
         elif k == "U":
-            self.emit(ind, f"_x = await SUB({s[1]}, {s[2]!r}, {s[3]!r})")
+            # inline (no helper coroutine frame: PEP 380 would re-raise a thrown GeneratorExit there)
+            self.emit(ind, f"SUB.drv({s[1]}, {s[2]!r})")
+            self.emit(ind, "try:")
+            self.emit(ind + 1, f"_x = await SUB.mk({s[1]}, {s[2]!r}, {s[3]!r})")
+            self.emit(ind, "except BaseException as _e:")
+            self.emit(ind + 1, f"SUB.exc({s[1]}, _e)")
+            self.emit(ind + 1, "raise")
+            self.emit(ind, f"SUB.ret({s[1]}, _x)")
             self.recv(ind)
         elif k == "R":
             self.emit(ind, f"raise mkexc({s[1]!r})")
@@ -204,6 +211,7 @@ def source(prog, mode, name="body"):
         src.emit(1, "try:")
         src.emit(2, "try:")
         src.block(prog, 3, False)
+        src.emit(3, "_r[:] = ['ret', None]")
         src.emit(2, "except BaseException as _e:")
         src.emit(3, "_r[:] = ['exc', _e]")
         src.emit(3, "raise")
